@@ -32,6 +32,12 @@ def stepJson (s : St) (j : Json) : Except String (St × String) := do
     let tn ← str! a[5]!
     let repl := (a[6]!.getBool?).toOption.getD false
     if (s.scopes[k]?).isNone then pure (s, "<noscope>") else
+    if pp == "" then
+      -- a predeclared type (`error`, `any`): nothing to import, the type name becomes visible, the name is suggested
+      let s3 := (s.step (.scope k (.add tn))).1
+      let (s4, nm) := s3.step (.scope k (.suggest vn))
+      pure (s4, nm ++ "|" ++ tn)
+    else
     let (s1, q) := s.step (.imp pn pp)
     let qual := if q == "<nil>" then "" else q
     let (s2, _) := s1.step (.scope k (.add qual))
